@@ -5,6 +5,7 @@ import Driver.DecodeD
 import Driver.NotifierD
 import Driver.ClusterD
 import Driver.TmplD
+import Driver.ConfigD
 
 /-!
   Line-protocol driver.  One operation per input line, one canonical output line per operation.
@@ -24,6 +25,7 @@ def step (st : State) (line : String) : State × String :=
   | "E" :: args => (st, EvalD.step args)
   | "D" :: args => (st, DecodeD.step args)
   | "T" :: args => (st, TmplD.step args)
+  | "C" :: args => (st, ConfigD.step args)
   | "K" :: args =>
     let (s', out) := ClusterD.step st.cluster args
     ({ st with cluster := s' }, out)
